@@ -378,7 +378,7 @@ class FactoredInference:
         """
         eigs = { cl : 0.0 for cl in self.model.cliques }
         for Q, _, noise, proj in measurements:
-            for cl in self.model.cliques:
+            for cl in sorted(self.model.cliques, key=self.model.domain.size):
                 if set(proj) <= set(cl):
                     n = self.domain.size(cl)
                     p = self.domain.size(proj)
